@@ -11,7 +11,7 @@ res = {}
 for line in open(sys.argv[1]):
     m = re.match(r'SEED (\S+) check=(\S+) tier=(\S+) rc=(\d+) violations=(\d+)', line)
     if m:
-        cur = (m.group(1), m.group(2))
+        cur = (m.group(1).split('/')[0], m.group(2))
         res[cur] = {'tier': m.group(3), 'detected': m.group(4) == '1' and int(m.group(5)) > 0, 'violation_keys': []}
         continue
     m = re.match(r'\s+key=(.*?) count=', line)
